@@ -150,6 +150,24 @@ pub fn n1() -> Design {
 }
 
 /// A source family entry: name, design, compiler options.
+/// M1: static, 17 simple glyphs, every ordered pair kerned with its own value: 289 adjustments, i.e. more than one
+/// block of 256, so that `handle_success(GatherIrKerning)` creates two `KernFragment` jobs at run time.
+pub fn m1() -> Design {
+    let mut d = Design::static_font("VrtM1");
+    let names: Vec<String> = (0..17u32).map(|i| char::from_u32(0x41 + i).unwrap().to_string()).collect();
+    for (i, n) in names.iter().enumerate() {
+        let mut g = Glyph::new(n, &[0x41 + i as u32]);
+        g.layers.insert(0, square_layer(400.0 + 10.0 * i as f64, 50.0, 300.0, 700.0));
+        d.glyphs.push(g);
+    }
+    for (i, a) in names.iter().enumerate() {
+        for (j, b) in names.iter().enumerate() {
+            d.masters[0].kerning.insert((a.clone(), b.clone()), -(10.0 + (i * 17 + j) as f64));
+        }
+    }
+    d
+}
+
 pub struct Src {
     pub name: &'static str,
     pub design: Design,
@@ -184,6 +202,7 @@ pub fn family() -> Vec<Src> {
         Src { name: "J2", design: j2(), opts: fcx::Opts { no_prefer_simple: true, ..Default::default() }, emit_ir: false },
         Src { name: "J3", design: j1(), opts: fcx::Opts { skip_features: true, ..Default::default() }, emit_ir: false },
         Src { name: "J5", design: j1(), opts: fcx::Opts::default(), emit_ir: true },
+        Src { name: "M1", design: m1(), opts: fcx::Opts::default(), emit_ir: false },
         Src { name: "K1", design: k1(), opts: fcx::Opts::default(), emit_ir: false },
         Src { name: "K2", design: k2(), opts: fcx::Opts::default(), emit_ir: false },
         Src { name: "N1", design: n1(), opts: fcx::Opts { no_prefer_simple: true, ..Default::default() }, emit_ir: false },
